@@ -153,7 +153,8 @@ def make_runner(h):
                 import gc
                 del gen
                 gc.collect()
-                ex.released = world.released()
+                gc.collect()
+                ex.released = all(c.closed for c in world.conns)      # close() was called on every descriptor
                 ex.selectors_closed = world.selectors_closed()
             else:
                 if sc.abort:
